@@ -1084,9 +1084,26 @@ class TeX(object):
         self.castRef()
 
         """
-        label = self.castString(tokens, **kwargs)
+        label = self.castString(self.labelTokens(tokens), **kwargs)
         self.ownerDocument.context.label(label)
         return label
+
+    def labelTokens(self, tokens):
+        """
+        Turn sub- and superscripts in a label name back into characters
+
+        A label name in an argument that was tokenized in math mode
+        before the name was read (e.g. \\mbox{$x\\label{a_1}$}) arrives
+        with its _ and ^ already made into sub- and superscripts.
+
+        """
+        output = []
+        for tok in tokens:
+            if getattr(tok, 'nodeName', None) in ('active::_', 'active::^'):
+                output.extend(self.textTokens(tok.source))
+            else:
+                output.append(tok)
+        return output
 
     def castRef(self, tokens, **kwargs):
         """
@@ -1104,7 +1121,7 @@ class TeX(object):
         self.castLabel()
 
         """
-        ref = self.castString(tokens, **kwargs)
+        ref = self.castString(self.labelTokens(tokens), **kwargs)
         self.ownerDocument.context.ref(kwargs['parentNode'], kwargs['name'], ref)
         return ref
 
